@@ -30,6 +30,7 @@ def run(ck, tier):
     _adopt(ck, p, byk)
     _reload(ck, p)
     _curated_first(ck, p)
+    _filekey(ck, p)
     from . import c06
     ck.rule("R-C07-accept", "an added word is accepted as written: the exact-spelling test compares like with like (rule instance of R-C06-exact) and the entry whose dialect the spell checker tests is not an earlier part's (rule instance of R-C06-union dialect)")
     sub = c05._Sub(ck, "R-C07-accept", "")
@@ -474,3 +475,48 @@ def _curated_first(ck, p):
         else:
             ck.proved(rule, key, f.span, "the curated dictionary is added first (%d further part(s) after it)" % (len(adds) - len(cur)))
     ck.floor(rule, "functions that build a merged dictionary", n, 1)
+
+
+# ---------------------------------------------------------------------------------------------------
+SHRINK = {"drain", "truncate", "pop", "remove", "replace_range", "clear", "split_off", "retain", "swap_remove", "dedup", "trim", "trim_end", "trim_start", "split_at", "get", "take", "skip", "rev", "chars"}
+
+
+def _filekey(ck, p):
+    """A file dictionary belongs to one document: its file name is derived from the document's path, and two
+    documents share a dictionary exactly when that derivation maps them to one name.  The name may therefore
+    only be built up from the whole path (per-component copying, separators replaced); nothing of it may be cut
+    away again."""
+    from .c13 import ops_on
+    rule = "R-C07-filekey"
+    ck.rule(rule, "a file-dictionary word affects only its file: dictionary_io::file_dict_name builds the file name from every component of the document's path and only ever appends to it - no truncation, draining or slicing of the name (distinct documents whose paths agree in the part that is kept would share one dictionary file)")
+    from ..util import fns_by_key
+    fs = fns_by_key(p).get("harper_ls::dictionary_io::file_dict_name")
+    if not ck.anchor(rule, "dictionary_io::file_dict_name", fs):
+        return
+    f = fs[0]
+    ck.saw(f)
+    pv = Prov(f)
+    strs = [l for l in range(len(f.d.get("locals", []))) if (f.local_tystr(l) or "") in ("std::string::String", "String", "alloc::string::String")]
+    names = f.debug_names()
+    shrunk = []
+    grown = []
+    for l in strs:
+        if l not in names:
+            continue
+        try:
+            ops = ops_on(f, pv, l)
+        except Exception:
+            ops = []
+        for m, bi, t in ops:
+            if m in SHRINK:
+                shrunk.append((names[l], m, t["ln"]))
+            if m in ("push", "push_str", "extend", "add_assign", "write_str", "write_fmt"):
+                grown.append(m)
+    key = "file_dict_name:whole-path"
+    if shrunk:
+        nm, m, ln = shrunk[0]
+        ck.refuted(rule, key, f.loc(ln), "the name built from the path is cut again (`%s.%s`): two documents whose paths differ only in the part that is dropped get the same dictionary file, so a word added for one file is accepted in the other - and stays so across restarts" % (nm, m))
+    elif grown:
+        ck.proved(rule, key, f.span, "the name is only appended to (%s)" % ", ".join(sorted(set(grown))))
+    else:
+        ck.undecided(rule, key, f.span, "how the file name is assembled from the path is not of a recognised form")
